@@ -819,6 +819,10 @@ class Interp:
                             raise PyRaise("ValueError", (f"unexpected field names {bad}",))
                         return Obj(v.cls, {**v.f, **kw}, tag=v.tag)
                     return PyFn(_replace, "NamedTuple._replace")
+                if getattr(v, "partial", False) and v.cls.find(self, name)[1] is None:
+                    # object laid out by a harness (not by its real constructor): a field the code reads but the harness did not
+                    # provide means the representation differs from what the contract assumes - undecided, never a violation
+                    raise Unsupported(f"harness-built {v.clsname} object has no field {name!r} (representation differs from the contract's)")
                 return self.class_attr(v, v.cls, name, node)
             raise PyRaise("AttributeError", (name,), node)
         if isinstance(v, SuperProxy):
@@ -1175,11 +1179,19 @@ class Interp:
             import itertools
 
             items = list(it)
-            if len(items) > 4:
-                raise Unsupported("iteration over a set with more than 4 elements")
-            perms = list(itertools.permutations(range(len(items))))
-            k = self.ctx.choose([True] * len(perms), "set-iteration-order")
-            return [items[i] for i in perms[k]]
+            if all(isinstance(x, (int, bool)) or x is None for x in items):
+                return items  # hashes of small ints are their values: deterministic
+            # the orders are not enumerated exhaustively: two representative ones (as inserted / reversed). This is an
+            # under-approximation of the nondeterminism: sound for refutations, noted as an assumption for proofs.
+            if len(items) > 2:
+                self.ctx.notes.append(f"set of {len(items)} elements iterated in 2 of its possible orders")
+            # ONE choice per path: every set of this path is iterated as inserted, or every set reversed (2 paths per unit instead of
+            # 2^(number of set iterations))
+            k = self.ctx.ghost.get("set_order_mode")
+            if k is None:
+                k = self.ctx.choose([True, True], "set-iteration-order")
+                self.ctx.ghost["set_order_mode"] = k
+            return items if k == 0 else items[::-1]
         if isinstance(it, (list, tuple, set, frozenset)):
             return list(it)
         if isinstance(it, dict):
